@@ -158,8 +158,7 @@ def compare(R, tag, impl, S, smiles, wit):
     else:
         _, tot, per_atom, fused, clash = exp
         if clash:
-            R.outcomes['unjudged(descriptor named like a group)'] += 1
-            return
+            R.extra['descriptor named like a group (counts add)'] += 1
         if got[0] != 'ok':
             key = 'spurious-' + got[0] + (':' + got[1].split(':')[0] if got[0] == 'EXC' else '')
             msg = '%s decomposes to %r but the call gave %r' % (smiles, tot, got)
@@ -240,7 +239,7 @@ def run_names(R, name):
     from ..domains import molecules as MD
     lib = libs.load(name)
     S = SR.load_scheme(SD.scheme_path(name))
-    cur = MD.CURATED_GAS + (MD.CURATED_RU if SD.SURFACE.get(name) == 'Ru' else
+    cur = MD.CURATED_GAS + ['[C]$[C]', '[C]$[C].CC', 'CCC.[C]$[C]'] + (MD.CURATED_RU if SD.SURFACE.get(name) == 'Ru' else
                             MD.CURATED_SURFACE if name in SD.SURFACE else [])
     for smi in cur:
         compare(R, 'library/' + name, lib, S, smi,
